@@ -15,9 +15,9 @@ if [ ! -d $ROOT/repo ]; then
 else
   git -C $ROOT/repo reset -q --hard && git -C $ROOT/repo checkout -q --detach $(git -C /repo rev-parse HEAD)
 fi
-rsync -a --delete --exclude .git --exclude .work --exclude harness/target --exclude harness_arms/target --exclude evidence /verif/ $ROOT/verif/
+rsync -a --delete --exclude .git --exclude .work --exclude harness/target --exclude harness_sim/target --exclude harness_arms/target --exclude evidence /verif/ $ROOT/verif/
 mkdir -p $ROOT/verif/evidence
-for f in tools/arms.py tools/vlib.py harness/Cargo.toml harness/build.rs; do
+for f in tools/arms.py tools/vlib.py harness/Cargo.toml harness_sim/build.rs; do
   sed -i "s#\"/repo#\"$ROOT/repo#g; s#path = \"/repo\"#path = \"$ROOT/repo\"#g" $ROOT/verif/$f
 done
 echo ready
